@@ -45,3 +45,56 @@ def count(traces, pred):
                 if pred(ln):
                     n += 1
     return n
+
+
+CONF_CFG = """SPECIFICATION TSpec
+CONSTANTS
+  MaxSignals = 3
+  Outcomes = {"ok", "fail", "ign"}
+  Outcomes3 = {"ok", "fail", "ign"}
+  OrigModes = {2}
+  OrigPwms = {77}
+  MaxFaults = 1000000
+  MaxStarts = 1000000
+  SkipInitWhenMinMax = FALSE
+CHECK_DEADLOCK FALSE
+CONSTRAINT Mark
+POSTCONDITION Accepted
+"""
+
+
+def conformance(run, traces, label='conf', limit=None):
+    """(C1) are the recorded executions behaviours of Daemon.tla? Trace_Daemon searches for a placement of the
+    silent steps; a trace that is not accepted is DRIFT (the monitors remain the arbiter), never a violation."""
+    import concurrent.futures as cf
+    import os
+    import re
+    import time
+    t0 = time.time()
+    files = traces if limit is None else traces[:limit]
+
+    def one(args):
+        i, tr = args
+        rc, out = run.tlc('Trace_Daemon', CONF_CFG, '%s_%d' % (label, i), workers=1, env=dict(VERIF_TRACE=tr), timeout=1800, heap='4g')
+        return tr, out
+    with cf.ThreadPoolExecutor(max_workers=8) as ex:
+        res = list(ex.map(one, enumerate(files)))
+    ok = 0
+    for tr, out in res:
+        m = re.search(r'"CONFORMANCE", (\d+), "consumed", (\d+)', out)
+        if not m:
+            tail = '\n'.join(out.splitlines()[-25:])
+            vlib.log(tail)
+            raise vlib.Infra('conformance check of %s did not complete (TLC error)' % tr)
+        n, consumed = int(m.group(1)), int(m.group(2))
+        if consumed == n:
+            ok += 1
+        else:
+            line = vlib.read_line(tr, consumed + 1)
+            run.cov['drift'].append(dict(trace=os.path.basename(tr), consumed=consumed, of=n, rejected_event=line[:400]))
+            vlib.log('[DRIFT] %s: the recorded execution is not a behaviour of Daemon.tla from line %d on: %s' % (
+                os.path.basename(tr), consumed + 1, line[:300]))
+    run.cov['validations'].append(dict(module='Trace_Daemon', label=label, files=len(files), accepted=ok,
+                                       wall_s=round(time.time() - t0, 1)))
+    vlib.log('[conf] Trace_Daemon: %d of %d trace files are behaviours of Daemon.tla (%.1fs)' % (ok, len(files), time.time() - t0))
+    return ok
